@@ -479,7 +479,7 @@ def _run(ctx, lab):
         shutil.rmtree(d, ignore_errors=True)
         return ('kill', '%s+%.3fs' % (milestone, jitter), finished, sc1, r1)
 
-    nk = (4 if quick else 48) if want('kill') else 0
+    nk = (4 if quick else 32) if want('kill') else 0
     for _ in range(nk):
         m = str(rng.choice(['pyx', 'c', 'o', 'o', 'so']))
         jit = float(rng.random()) * {'pyx': 2.0, 'c': 4.0, 'o': 0.2, 'so': 0.05}[m]
@@ -529,7 +529,7 @@ def _run(ctx, lab):
         return ('held', held, ra, rb, rc)
 
     rounds = []
-    ns = [2, 6] if quick else [2, 3, 4, 5, 6, 8, 8, 12, 16]
+    ns = [2, 6] if quick else [2, 3, 4, 6, 8, 12, 16]
     for n in ns:
         spread = float(rng.choice([0.0, 0.5, 3.0]))
         rounds.append((['mass'] * n, (spread * rng.random(n)).tolist()))
@@ -538,7 +538,7 @@ def _run(ctx, lab):
     if rp is not None:
         rounds = [(rp['forms'], rp['start_offsets_s'])] * 3 if rp.get('stream') == 'race' else []
     rpool = ThreadPoolExecutor(len(rounds) + 1 if quick else 1)
-    rfuts = [rpool.submit(race, f, o) for f, o in rounds] + [rpool.submit(held_link_race) for _ in range((1 if quick else 4) if want('held-link-race') else 0)]
+    rfuts = [rpool.submit(race, f, o) for f, o in rounds] + [rpool.submit(held_link_race) for _ in range((1 if quick else 3) if want('held-link-race') else 0)]
 
     results = [f.result() for f in futs]
     pool.shutdown()
